@@ -1,0 +1,82 @@
+//go:build verif
+
+// Machine-checked contracts for the functions the properties in
+// /verif/properties.jsonl depend on. This file is comment-only: it declares
+// nothing, so it changes neither the package's API nor its behaviour, and it is
+// compiled only with -tags verif. The /verif verifier (vcgen) loads the package
+// with that tag, binds each "//@ func" block to the function of that name in the
+// current working tree, generates verification conditions from the function's
+// go/ssa form and discharges them with z3 / cvc5.
+//
+// Clause language (see /verif/DESIGN.md §3.3):
+//   //@ func <name>            start of a contract; (*T).m, T.m, f, f$1 (closure)
+//   //@ extern <name>          assumed contract of a dependency / interface method
+//   //@ props C04 C18          properties whose checks include this function
+//   //@ requires <e>           precondition (assumed in the body, obligation at call sites)
+//   //@ ensures <e>            postcondition (obligation in the body, assumed at call sites)
+//   //@ loop <k> invariant <e> inductive invariant of the k-th loop (source order)
+//   //@ modifies <targets>     frame; default: modifies nothing
+//   //@ ghost <name> <type>    universally quantified ghost input
+//   //@ safety                 generate no-panic obligations (bounds, nil, make sizes)
+//   //@ pred name(p t, ...) = <e>   specification macro
+package bloomsearch
+
+// ---------------------------------------------------------------------------
+// Assumed contracts of dependencies (never proved; listed in every evidence
+// file that uses them). Results are constrained only as stated — in
+// particular no extern is ever assumed to succeed.
+// ---------------------------------------------------------------------------
+
+//@ extern fmt.Errorf
+//@ pure
+//@ ensures result != nil
+
+//@ extern errors.New
+//@ pure
+//@ ensures result != nil
+
+// ---------------------------------------------------------------------------
+// min_max.go
+// ---------------------------------------------------------------------------
+
+//@ func UpdateMinMaxIndex
+//@ props C04 C18 C11
+//@ ensures result.Min == min(existing.Min, newMin)
+//@ ensures result.Max == max(existing.Max, newMax)
+
+//@ func clampUint64ToInt64
+//@ props C04 C18
+//@ ensures result == min(v, MaxInt64)
+
+// ---------------------------------------------------------------------------
+// file_format.go
+// ---------------------------------------------------------------------------
+
+//@ pred validSection(b *DataBlockMetadata, rs int, re int) = b.BloomFilterSize == 0 || (b.BloomFilterSize > 0 && rs <= b.BloomFilterOffset && b.BloomFilterOffset + b.BloomFilterSize <= re)
+
+//@ func (*DataBlockMetadata).validateFilterSection
+//@ props C19 C24 C01
+//@ safety
+//@ requires b != nil
+//@ requires 0 <= regionOffset   // every caller passes a validated, non-negative region start
+//@ ensures result == nil <==> validSection(b, regionOffset, regionEnd)
+
+//@ func (*blockFilterCursor).heldSection
+//@ props C19 C24 C01
+//@ safety
+//@ requires c != nil && block != nil
+//@ requires block.BloomFilterSize >= 0 && block.BloomFilterOffset >= 0   // filtersFor validates the section first
+//@ requires c.chunkStart >= 0            // cursor invariant: 0 initially, a validated section offset afterwards
+//@ ensures result1 ==> c.buf != nil && c.chunkStart <= block.BloomFilterOffset && block.BloomFilterOffset + block.BloomFilterSize <= c.chunkStart + len(c.buf)
+//@ ensures result1 ==> len(result0) == block.BloomFilterSize
+
+// ---------------------------------------------------------------------------
+// merge.go
+// ---------------------------------------------------------------------------
+
+//@ func (*BloomSearchEngine).blocksWithinMergeLimits
+//@ props C12
+//@ requires b != nil
+//@ requires 0 <= shape1.rows && 0 <= shape2.rows && 0 <= shape1.uncompressedSize && 0 <= shape2.uncompressedSize
+//@ requires shape1.rows < 4611686018427387904 && shape2.rows < 4611686018427387904 && shape1.uncompressedSize < 4611686018427387904 && shape2.uncompressedSize < 4611686018427387904
+//@ ensures result <==> (shape1.rows + shape2.rows <= b.config.MaxRowGroupRows && shape1.uncompressedSize + shape2.uncompressedSize <= b.config.MaxRowGroupBytes)
